@@ -1198,12 +1198,21 @@ package ring
 //@   assigns p2[0:s.N]
 //@   ensures forall(k, 0, s.N, p2[k] < 6*s.Modulus)
 
+// inttval: the k-th coefficient, reduced, of the inverse transform of the row at address a: an
+// UNINTERPRETED function of the memory before the call, the input row, the table of roots, the degree
+// and the modulus.  The transforms are not verified; naming their output lets a caller's contract say
+// what it does WITH that output (the centring constant of the rounded division, property C02).
+// Assumed: the output depends on nothing else (the kind of transform, 1/N and the Montgomery constant
+// are determined by the modulus, the degree and the table within one ring).
+//@ ghost inttval(m, a, roots, n, q, k) int
+
 //@ func SubRing.INTT
 //@   property C01
-//@   trusted INTT not yet verified: assumed frame and output range [0, q)
+//@   trusted INTT not yet verified: assumed frame and output range [0, q); the output is NAMED (inttval)
 //@   requires len(p1) >= s.N && len(p2) >= s.N && 0 <= s.N
 //@   assigns p2[0:s.N]
 //@   ensures forall(k, 0, s.N, p2[k] < s.Modulus)
+//@   ensures forall(k, 0, s.N, p2[k] == inttval(mem, p1, s.RootsBackward, s.N, s.Modulus, k))
 
 //@ func SubRing.INTTLazy
 //@   property C01
@@ -1211,6 +1220,7 @@ package ring
 //@   requires len(p1) >= s.N && len(p2) >= s.N && 0 <= s.N
 //@   assigns p2[0:s.N]
 //@   ensures forall(k, 0, s.N, p2[k] < 2*s.Modulus && (p2[k] < s.Modulus || 4*(p2[k] - s.Modulus) < s.Modulus))
+//@   ensures forall(k, 0, s.N, ite(p2[k] < s.Modulus, p2[k], p2[k] - s.Modulus) == inttval(mem, p1, s.RootsBackward, s.N, s.Modulus, k))
 
 // NTT-domain divisions: frame and memory safety only (values need the NTT contracts)
 //@ func Ring.DivRoundByLastModulusNTT
@@ -1222,7 +1232,11 @@ package ring
 //@   let n = r.SubRings[L].N
 //@   requires 2 < qL && qL < 1<<61 && n % 8 == 0 && 16 <= n
 //@   requires len(p0.Coeffs[L]) == n && len(buff.Coeffs[L]) == n && disjoint(buff.Coeffs[L], p0.Coeffs[L])
+//@   requires forall(j, 0, r.level, disjoint(p1.Coeffs[j], buff.Coeffs[L]) && disjoint(buff.Coeffs[j], buff.Coeffs[L]))
 //@   assigns buff.Coeffs[r.level]
+// rounded HALF-UP (property C02): what is subtracted from the input is the last row, brought back to
+// coefficients, plus floor(qL/2), reduced: floor((x + floor(qL/2)) / qL) is the rounded quotient
+//@   ensures implies(qL % 2 == 1, forall(k, 0, n, buff.Coeffs[L][k] == CRed(inttval(mem, p0.Coeffs[L], r.SubRings[L].RootsBackward, n, qL, k) + qL/2, qL)))
 //@   rowloop 0 i 0 r.level out=p1,buff
 //@   let q = r.SubRings[i].Modulus
 //@   let mc = r.SubRings[i].MRedConstant
